@@ -347,3 +347,22 @@ from . import c13 as _c13  # noqa: E402
 ENGINES.append({"name": "E3", "path": "vlib/e3.py + vlib/c13.py + vlib/c20.py + harness/api_all.hpp", "serves_properties": [],
                 "kind_free_text": "program generation with the compiler's verdict / compile-time result tables as oracle"})
 REG["C13"] = _c13.C13()
+
+
+@prop("C08")
+class C08(ZooProp):
+    pid = "C08"
+    mode = "C08"
+    level = "fault_enumeration"
+    rule = ("for every generated dump (stacks of the grammar cover, arbitrary bit patterns): (1) EVERY proper prefix; (2) every header / footer / tag / "
+            "float-width word position taken from the reference parser's tree x replacement values {0, ~0, bit flips, +-1, the other magic word, "
+            "tag +- footer offset, every other layer tag, widths 0/2/3/12/16, hashed}; (3) the dump loaded as every other stack type of the cover; (4) "
+            "a stream whose n-th read request fails, for every n, both as short read + EOF and as an exception thrown by the stream buffer. Oracle: "
+            "if the faulted bytes are not a grammatical dump of the target type according to the independent reference parser, the stream "
+            "constructor must leave by an exception (abort / signal / sanitizer report / returned field = violation); grammatical-by-accident "
+            "streams are counted and allowed. evaluations count injected faults; non-trivial = fault strictly inside the stream / an actual change "
+            "/ a different target type; element counts > 2^20 are skipped (allocation failure is not modelled under ASan) and counted")
+    min_eval = 20000
+    assumptions = ("assertions enabled (no -DNDEBUG), ASan + UBSan; a faulted element-count that would request more than 2^20 cells is excluded and counted",)
+    level_text = ("Complete enumeration of truncation points and of structural-word positions per generated dump, all ordered stack pairs, every failing "
+                  "read index; differential against an independent reference parser of the format.")
